@@ -700,6 +700,60 @@ def value_roles(sh: SolverShape) -> Tuple[str, str]:
     return cur, prev
 
 
+class NFView:
+    """What the pass loop knows about non-finite values: every way of writing `some value of X is not finite`
+    (`np.any(~np.isfinite(X))`, `not np.all(np.isfinite(X))`, a local flag holding either, a conjunct of a compound
+    test) is read as the atom `NF__cur` / `NF__prev`, and facts are derived by entailment (fsa.match.entails)."""
+
+    def __init__(self, sh: SolverShape) -> None:
+        self.sh = sh
+        self.cur, self.prev = value_roles(sh)
+        self.role = {self.cur: 'NF__cur', self.prev: 'NF__prev'}
+
+    def norm(self, nid: int, e: ast.AST) -> ast.AST:
+        import copy as _copy
+        sh, role = self.sh, self.role
+        x = sh.expand(nid, e, stop=(self.cur, self.prev))
+
+        class T(ast.NodeTransformer):
+            def visit(self, node):
+                if isinstance(node, ast.expr):
+                    r = nonfinite_test(node)
+                    if r in role:
+                        return ast.Name(id=role[r], ctx=ast.Load())
+                    r2 = nonfinite_test(ast.UnaryOp(op=ast.Not(), operand=node)) if not (isinstance(node, ast.UnaryOp) and isinstance(node.op, ast.Not)) else None
+                    if r2 in role:
+                        return ast.UnaryOp(op=ast.Not(), operand=ast.Name(id=role[r2], ctx=ast.Load()))
+                return super().visit(node)
+
+        return ast.fix_missing_locations(T().visit(_copy.deepcopy(x)))
+
+    def mentions(self, n: Node, which: str) -> bool:
+        return n.ast is not None and any(isinstance(x, ast.Name) and x.id == which for x in ast.walk(self.norm(n.id, n.ast if n.kind == 'test' else getattr(n.ast, 'value', n.ast) or n.ast)))
+
+    def tests(self, which: str) -> List[Node]:
+        return [n for n in self.sh.tests() if self.sh.in_loop(n) and self.mentions(n, which)]
+
+    def implied_by_true_edge(self, n: Node, which: str) -> bool:
+        """Is `which` known true on the T edge of test `n`?"""
+        from fsa.match import nnf_atoms
+        return any(isinstance(a, ast.Name) and a.id == which and tr for (a, tr) in nnf_atoms(self.norm(n.id, n.ast), True))
+
+    def facts(self, nid: int):
+        from fsa.match import nnf_atoms
+        out = []
+        for (tid, lab) in self.sh.guards_of(nid):
+            tn = self.sh.cfg.nodes[tid]
+            if tn.kind == 'test' and lab in ('T', 'F'):
+                for (a, tr) in nnf_atoms(self.norm(tn.id, tn.ast), lab == 'T'):
+                    out.append((a, tr, tn))
+        return out
+
+    def known(self, nid: int, which: str, truth: bool) -> bool:
+        from fsa.match import entails
+        return entails(self.facts(nid), ast.Name(id=which, ctx=ast.Load()), truth)
+
+
 def position_cmp(shape: SolverShape, nid: int, atom: ast.AST, src: str = 't'):
     """Canonical integer comparison of `atom` with locals read through and the local holding the normalised
     position replaced by the atom `P`; None if the atom is not a comparison mentioning that position."""
